@@ -19,7 +19,10 @@ pub const SETTINGS: [[u8; 5]; 6] = [
 
 const CODE_AREAS: [u32; 3] = [0xffc000, 0x410000, 0x000080];
 const OPND_AREAS: [u32; 3] = [0xffd040, 0x480040, 0x000040];
-const STACKS: [u32; 3] = [0x00ffe000, 0x5a4c0000, 0x000000e0];
+/// incl. stack pointers at the first address above a region: the frame is in the region, SP itself is not
+const STACKS: [u32; 6] = [0x00ffe000, 0x5a4c0000, 0x000000e0, 0x00ffff20, 0x00600000, 0x00000100];
+/// for pops: the frame is the last four bytes of a region
+const POP_STACKS: [u32; 5] = [0x00ffe000, 0x5a4c0000, 0x000000e0, 0x00ffff1c, 0x005ffffc];
 
 fn apply_settings(c: &mut Case, s: &[u8; 5]) {
     c.patch(ABWCR, s[0]);
@@ -89,8 +92,15 @@ fn cases_for_row(isa: &Isa, row: usize, pc: u32, out: &mut Vec<Case>) {
                         continue;
                     }
                     let base = base_for(&shape, ea, f.data, 0x00);
-                    let c = build_case(isa, row, &f, &shape, base, 0x5a5a_5a5a, if shape.load { Some(ea) } else { None }, pc, 0x00, &regs);
-                    out.push(c);
+                    // several loaded values: when the data register is the address register itself the loaded
+                    // value replaces the pointer, and the charge must still be taken at the address read
+                    for value in [0x5a5a_5a5au32, 0x0000_0000, 0x0041_0008, 0x00ff_d008] {
+                        let c = build_case(isa, row, &f, &shape, base, value, if shape.load { Some(ea) } else { None }, pc, 0x00, &regs);
+                        out.push(c);
+                        if !(shape.load && (d & 7) == ra) {
+                            break;
+                        }
+                    }
                 }
             }
         }
@@ -208,7 +218,7 @@ fn cases_for_row(isa: &Isa, row: usize, pc: u32, out: &mut Vec<Case>) {
             }
         }
         Sem::Rts | Sem::Rte => {
-            for &sp in STACKS.iter() {
+            for &sp in POP_STACKS.iter() {
                 let mut c = mk(&Fields::default());
                 c.er[7] = sp;
                 c.patch_l(sp & M24, 0x2a00_0000 | 0x410600);
